@@ -44,7 +44,8 @@ def cases(draw, exclude: frozenset = frozenset()):
 			mode = 'hash'
 		ops.append([k, m, visible, rnd.randint(1, 3), mode])
 	ops.append(['run', mods[0], 0, 1, 'remove'])
-	return {'graph': gname, 'pkg': pkg, 'ops': ops}
+	# overlapping input globs: one module file is also named explicitly, so it is listed twice
+	return {'graph': gname, 'pkg': pkg, 'ops': ops, 'also_listed': rnd.choice(mods) if rnd.random() < 0.4 else None}
 
 
 def expected_path(pkg: str, m: str) -> str:
@@ -71,7 +72,8 @@ def judge(scratch: str, case: dict) -> tuple[list[tuple[str, str]], dict]:
 		proj = os.path.join(work, 'proj')
 		for d in set(pkg.values()):
 			os.makedirs(os.path.join(proj, d), exist_ok=True)
-		P.write_config(proj, ['srca/*:outA', 'srcb/:outB', 'out/'], sorted({f'{d}/*.py' for d in pkg.values()}))
+		also = case.get('also_listed')
+		P.write_config(proj, ['srca/*:outA', 'srcb/:outB', 'out/'], ([f'{pkg[also]}/{also}.py'] if also else []) + sorted({f'{d}/*.py' for d in pkg.values()}))
 		for m in graph:
 			P.bump_write(os.path.join(proj, pkg[m], m + '.py'), P.module_source(m, pkg, 0, 1, graph))
 		step = 0
@@ -211,7 +213,7 @@ def shard(ctx: core.Ctx) -> None:
 		ctx.extra['runs'] = ctx.extra.get('runs', 0) + info['runs']
 		ctx.case([case['graph'], case['pkg'], case['ops']], info['edit_between_runs'] or info['repair_before_run'],
 			sample={'graph': case['graph'], 'dirs': case['pkg'], 'history': [f'{o[0]}({o[1]})' if o[0] not in ('run', 'run_f') else o[0] for o in case['ops']]},
-			labels=['history', case['graph']] + [k for k in ('edit_between_runs', 'repair_before_run') if info[k]])
+			labels=['history', case['graph']] + (['module-listed-twice'] if case.get('also_listed') else []) + [k for k in ('edit_between_runs', 'repair_before_run') if info[k]])
 		for sig, detail in fails:
 			ctx.fail(sig, detail, case)
 
